@@ -58,7 +58,7 @@ impl UserCfg {
 }
 
 fn gen_user_cfg(rng: &mut Rng, keys: &[String]) -> UserCfg {
-    let (on, off) = *rng.pick(&[(10u64, 10u64), (40, 40), (0, 30), (30, 0), (90, 5), (2, 2), (0, 0)]);
+    let (on, off) = *rng.pick(&[(10u64, 10u64), (40, 40), (0, 30), (30, 0), (90, 5), (2, 2), (0, 0), (60, 40), (50, 50), (97, 2)]);
     let mut set = BTreeMap::new();
     for k in keys {
         let x = rng.below(100) as u64;
@@ -68,7 +68,7 @@ fn gen_user_cfg(rng: &mut Rng, keys: &[String]) -> UserCfg {
             set.insert(k.clone(), false);
         }
     }
-    let mut unknown = Vec::new();
+    let mut unknown: Vec<(String, Option<bool>)> = Vec::new();
     if rng.chance(1, 2) {
         unknown.push(("NoSuchRule".to_string(), Some(true)));
     }
@@ -77,6 +77,18 @@ fn gen_user_cfg(rng: &mut Rng, keys: &[String]) -> UserCfg {
     }
     if rng.chance(1, 4) {
         unknown.push(("\u{00C9}t\u{00E9} \"rule\"".to_string(), None));
+    }
+    // a settings file that lists (nearly) every rule, carried over from a version in which some rules went by
+    // other names: as many entries as there are rules, or more, but not every current rule is among them
+    if rng.chance(1, 5) {
+        let drop = rng.range(1, 6);
+        for _ in 0..drop {
+            let k = rng.pick(keys).clone();
+            set.remove(&k);
+        }
+        for i in 0..rng.range(0, 12) {
+            unknown.push((format!("RuleOfAnOlderVersion{i}"), Some(rng.chance(1, 2))));
+        }
     }
     UserCfg { set, unknown }
 }
@@ -98,7 +110,7 @@ pub fn worker(ctx: &mut Ctx) {
 
     // ---- A. configuration algebra (no documents): overlay law, merge orders, JSON round trip
     {
-        let n = ctx.share(3_000, 200_000);
+        let n = ctx.share(3_000, 100_000);
         let mut rng = ctx.rng("c11-algebra");
         for k in 0..n {
             let u = gen_user_cfg(&mut rng, &keys);
@@ -176,8 +188,8 @@ pub fn worker(ctx: &mut Ctx) {
     }
 
     // ---- B. documents: singles vs combinations, attribution, unknown keys, wasm overlay
-    let ndocs = ctx.budget(240, 5_000);
-    let ncfg = ctx.budget(24, 120) as usize;
+    let ndocs = ctx.budget(240, 1_500);
+    let ncfg = ctx.budget(24, 60) as usize;
     let mut rng = ctx.rng_global("c11-docs");
     for di in 0..ndocs {
         let mut r = Rng(rng.next());
